@@ -11,6 +11,7 @@ class C10(LoopCheck):
     pid = "C10"
     props = {"C10"}
     flows = ("plain", "resume")
+    adaptive_N3 = ()
     required_labels = ["c10/history", "c10/final", "c10/initial_fp/size", "c10/initial_fp/rows", "c10/initial_fp/finite_prior"]
 
     def configs(self, tier):
